@@ -10,6 +10,12 @@ META_EXCLUDE.add('node_without_result')
 META_EXCLUDE.add('success_channels')
 
 
+def _dumps(data):
+    # '~' can only occur inside JSON strings; written as an escape the packet
+    # never contains the '~~~' packet delimiter and decodes to the same text
+    return json.dumps(data).replace('~', '\\u007e')
+
+
 def load_event(s):
     data = json.loads(s)
 
@@ -48,7 +54,7 @@ def dump_event(e, id):
         'meta': meta,
     }
 
-    return json.dumps(data)
+    return _dumps(data)
 
 
 def dump_value(v):
@@ -65,7 +71,7 @@ def dump_value(v):
         'value': v._value,
         'meta': meta,
     }
-    return json.dumps(data)
+    return _dumps(data)
 
 
 def load_value(v):
